@@ -217,21 +217,61 @@ func c11r1(c *an.Ctx) {
 		c.Check(okLoop, fmt.Sprintf("Decode | loop %d consumes input through readEntry", i), c.P.Pos(dec.Pos()), "", "Decode's loop does not advance through readEntry")
 	}
 	// readEntry's success return is a strict suffix: buf was advanced past the tag byte before slicing
-	okSuffix := false
-	for _, ret := range an.Returns(re) {
-		if cst, isC := ret.Results[3].(*ssa.Const); isC && cst.Value != nil && cst.Value.String() == "true" {
-			if sl, isSl := ret.Results[0].(*ssa.Slice); isSl && sl.Low != nil {
-				if ex, isEx := sl.X.(*ssa.Extract); isEx {
-					if call, isCall := ex.Tuple.(*ssa.Call); isCall && an.IsCallTo(call.Common(), readVarint) {
-						if in0, isSl0 := call.Common().Args[0].(*ssa.Slice); isSl0 {
-							if lo, isLo := an.ConstInt(in0.Low); isLo && lo >= 1 {
-								okSuffix = true
-							}
-						}
-					}
-				}
-			}
+	// every return case that can report success yields a remainder derived from the input by at
+	// least one step that consumes a byte (a slice from a constant >= 1, or ReadVarint's remainder)
+	okSuffix := true
+	nSuccess := 0
+	var advanced func(v ssa.Value, depth int) (reaches, strict bool)
+	advanced = func(v ssa.Value, depth int) (bool, bool) {
+		if depth > 12 || v == nil {
+			return false, false
 		}
+		v = an.Resolve(v)
+		if len(re.Params) > 0 && v == re.Params[0] {
+			return true, false
+		}
+		switch x := v.(type) {
+		case *ssa.Slice:
+			r, s := advanced(x.X, depth+1)
+			if lo, isLo := an.ConstInt(x.Low); x.Low != nil && isLo && lo >= 1 {
+				s = true
+			}
+			return r, s
+		case *ssa.Extract:
+			if call, isCall := x.Tuple.(*ssa.Call); isCall && an.IsCallTo(call.Common(), readVarint) && x.Index == 0 && len(call.Common().Args) > 0 {
+				r, _ := advanced(call.Common().Args[0], depth+1)
+				return r, true // a successful ReadVarint consumes at least one byte
+			}
+		case *ssa.Phi:
+			allR, allS := len(x.Edges) > 0, true
+			for _, e := range x.Edges {
+				if an.IsNilConst(e) {
+					continue // the failure ways in; they are not success cases
+				}
+				r, s := advanced(e, depth+1)
+				allR, allS = allR && r, allS && s
+			}
+			return allR, allS
+		}
+		return false, false
+	}
+	for _, rc := range an.ReturnCases(re) {
+		if len(rc.Vals) < 5 {
+			continue
+		}
+		if cst, isC := rc.Vals[3].(*ssa.Const); isC && cst.Value != nil && cst.Value.String() == "false" {
+			continue
+		}
+		if rc.Vals[4] != nil && !an.IsNilConst(rc.Vals[4]) && provablyNonNilCase(rc.Vals[4], rc) {
+			continue
+		}
+		nSuccess++
+		if r, s := advanced(rc.Vals[0], 0); !r || !s {
+			okSuffix = false
+		}
+	}
+	if nSuccess == 0 {
+		okSuffix = false
 	}
 	c.Check(okSuffix, "readEntry | success returns a strict suffix of its input", c.P.Pos(re.Pos()), "", "readEntry can succeed without consuming anything: Decode would loop forever")
 }
@@ -322,60 +362,67 @@ func c11r3(c *an.Ctx) {
 	mdGet := a.obj("drpcmetadata", "Get")
 	kinds := kindConsts(c)
 	nFn := 0
-	for _, name := range []string{"(*Conn).doInvoke", "(*Conn).doNewStream"} {
-		fn := c.Fn("drpcconn", name)
-		nFn++
-		var metaW, invW ssa.Instruction
-		var metaArg ssa.Value
-		an.Instrs(fn, func(in ssa.Instruction) {
-			call, ok := in.(*ssa.Call)
-			if !ok || !an.IsCallTo(call.Common(), rawWrite) {
-				return
-			}
-			k, _ := an.ConstInt(an.Arg(call.Common(), 0))
-			switch k {
-			case kinds["KindInvokeMetadata"]:
-				metaW, metaArg = in, an.Arg(call.Common(), 1)
-			case kinds["KindInvoke"]:
-				invW = in
-			}
-		})
-		ok := metaW != nil && invW != nil && an.CanReach(metaW, invW) && !an.CanReach(invW, metaW)
-		c.Check(ok, name+" | metadata packet is written before the invoke packet", c.P.Pos(fn.Pos()), "", "the invoke can reach the server before (or without) its metadata")
-		if metaW != nil && invW != nil {
-			same := an.Recv(metaW.(*ssa.Call).Common()) == an.Recv(invW.(*ssa.Call).Common())
-			c.Check(same, name+" | both packets are written on the same stream", c.At(metaW), "", "metadata and invoke are written on different streams")
-			guarded := false
-			for _, g := range an.GuardsOf(metaW.Block()) {
-				if b, isB := g.Cond.(*ssa.BinOp); isB && g.True && b.Op == token.GTR && lenOperand(b.X) == metaArg {
-					guarded = true
+	// per entry point, wherever the two writes are (the entry itself or a same-package helper it calls)
+	for _, entry := range []string{"(*Conn).Invoke", "(*Conn).NewStream"} {
+		efn := c.Fn("drpcconn", entry)
+		found := false
+		for _, fn := range extendedBody(efn) {
+			var metaW, invW ssa.Instruction
+			var metaArg ssa.Value
+			an.Instrs(fn, func(in ssa.Instruction) {
+				call, ok := in.(*ssa.Call)
+				if !ok || !an.IsCallTo(call.Common(), rawWrite) {
+					return
 				}
-			}
-			c.Check(guarded, name+" | metadata packet only when there is metadata", c.At(metaW), "", "an empty metadata packet is sent (or the guard tests something else)")
-		}
-	}
-	// the entry points: metadata = Encode(<call-private buffer>, Get(ctx)) of the call's own ctx
-	for _, x := range []struct{ entry, helper string }{{"(*Conn).Invoke", "(*Conn).doInvoke"}, {"(*Conn).NewStream", "(*Conn).doNewStream"}} {
-		fn := c.Fn("drpcconn", x.entry)
-		helper := a.obj("drpcconn", x.helper)
-		for _, cs := range an.CallsTo(fn, false, helper) {
-			// the metadata argument is the []byte parameter named metadata
-			hf := c.Fn("drpcconn", x.helper)
-			idx := -1
-			for i, p := range hf.Params {
-				if p.Name() == "metadata" {
-					idx = i
+				k, _ := an.ConstInt(an.Arg(call.Common(), 0))
+				switch k {
+				case kinds["KindInvokeMetadata"]:
+					metaW, metaArg = in, an.Arg(call.Common(), 1)
+				case kinds["KindInvoke"]:
+					invW = in
 				}
-			}
-			if idx < 0 {
-				c.Undecided("%s has no metadata parameter", x.helper)
+			})
+			if metaW == nil && invW == nil {
 				continue
 			}
-			arg := cs.Common().Args[idx]
-			why := privateEncodedMetadata(arg, fn, encode, mdGet, 0)
-			c.Check(why == "", x.entry+" | metadata bytes are encoded from this call's ctx into a call-private buffer", c.At(cs.Instr), "",
-				"the metadata handed to the stream is not provably this call's own: "+why+" (a buffer shared between calls can be overwritten by a concurrent call while this one waits for the stream slot; the handler would see another call's metadata)")
+			found = true
+			nFn++
+			c.Analysed(fn)
+			ok := metaW != nil && invW != nil && an.CanReach(metaW, invW) && !an.CanReach(invW, metaW)
+			c.Check(ok, entry+" | metadata packet is written before the invoke packet", c.P.Pos(fn.Pos()), "", "the invoke can reach the server before (or without) its metadata")
+			if metaW == nil || invW == nil {
+				continue
+			}
+			r1, r2 := an.Recv(metaW.(*ssa.Call).Common()), an.Recv(invW.(*ssa.Call).Common())
+			same := r1 == r2 || an.Resolve(r1) == an.Resolve(r2) || sameValue(r1, r2)
+			c.Check(same, entry+" | both packets are written on the same stream", c.At(metaW), "", "metadata and invoke are written on different streams")
+			guarded := false
+			for _, g := range an.GuardsOf(metaW.Block()) {
+				if cmp, ok := an.CmpOf(g); ok {
+					isLen := func(v ssa.Value) bool { return lenOperand(v) != nil && lenOperand(v) == metaArg }
+					isZero := func(v ssa.Value) bool {
+						k, isK := an.ConstInt(v)
+						return isK && k == 0
+					}
+					if cmp.Is(token.GTR, isLen, isZero) || cmp.Is(token.NEQ, isLen, isZero) {
+						guarded = true
+					}
+				}
+			}
+			c.Check(guarded, entry+" | metadata packet only when there is metadata", c.At(metaW), "", "an empty metadata packet is sent (or the guard tests something else)")
+			// the bytes: Encode(<call-private buffer>, Get(ctx)) of the call's own ctx, followed through helper parameters
+			for _, src := range paramSources(metaArg, efn, 0) {
+				why := "it reaches the write through " + an.R(src.v) + " in " + an.ShortFunc(src.fn)
+				if src.fn == efn {
+					why = privateEncodedMetadata(src.v, efn, encode, mdGet, 0)
+				} else if _, isParam := src.v.(*ssa.Parameter); !isParam {
+					why = privateEncodedMetadata(src.v, src.fn, encode, mdGet, 0)
+				}
+				c.Check(why == "", entry+" | metadata bytes are encoded from this call's ctx into a call-private buffer", c.At(metaW), "",
+					"the metadata handed to the stream is not provably this call's own: "+why+" (a buffer shared between calls can be overwritten by a concurrent call while this one waits for the stream slot; the handler would see another call's metadata)")
+			}
 		}
+		c.Check(found, entry+" | writes the invoke sequence", c.P.Pos(efn.Pos()), "", "no KindInvoke write is reachable from "+entry+" inside the package")
 	}
 	c.Floor("client invoke helpers", 1, nFn)
 }
